@@ -135,6 +135,10 @@ func Deserializer.ReadTime
   ensures old(d.err) != nil ==> d.offset == old(d.offset) && d.err == old(d.err)
   ensures d.offset != old(d.offset) ==> d.offset == old(d.offset) + 8
   ensures old(d.err) == nil && len(d.src) - old(d.offset) >= 8 ==> d.err == nil && d.offset == old(d.offset) + 8
+  -- the instant read: exact inside the int64 nanosecond range, saturated beyond the last representable second
+  -- (values between MaxInt64 and the end of that second are outside the documented range: unspecified)
+  ensures d.offset != old(d.offset) && le64(elems(d.src), off(d.src) + old(d.offset)) <= MaxInt64 ==> tsec(*dest) * 1000000000 + tnsec(*dest) == le64(elems(d.src), off(d.src) + old(d.offset))
+  ensures d.offset != old(d.offset) && le64(elems(d.src), off(d.src) + old(d.offset)) >= 9223372037000000000 ==> tsec(*dest) * 1000000000 + tnsec(*dest) == MaxInt64
 
 func Deserializer.ReadUint256
   requires d != nil && inv(d) && dest != nil
@@ -236,8 +240,22 @@ func ArrayRules.ElementUniqueValidator
   requires true
 func ArrayRules.LexicalOrderValidator
   requires true
+-- remembers the last accepted element; rejects exactly an element that sorts before it
+func ArrayRules.LexicalOrderValidator$1
+  requires prev != nil && prevIndex != nil
+  modifies *prev, *prevIndex
+  ensures r0 != nil <==> (base(old(*prev)) != 0 && lexgt(content(old(*prev)), content(next)))
+  ensures r0 == nil ==> *prev == next && *prevIndex == index
+  ensures r0 != nil ==> *prev == old(*prev) && *prevIndex == old(*prevIndex)
 func ArrayRules.LexicalOrderWithoutDupsValidator
   requires true
+-- additionally rejects an element equal to the last accepted one
+func ArrayRules.LexicalOrderWithoutDupsValidator$1
+  requires prev != nil && prevIndex != nil
+  modifies *prev, *prevIndex
+  ensures r0 != nil <==> (base(old(*prev)) != 0 && (lexgt(content(old(*prev)), content(next)) || content(old(*prev)) == content(next)))
+  ensures r0 == nil ==> *prev == next && *prevIndex == index
+  ensures r0 != nil ==> *prev == old(*prev) && *prevIndex == old(*prevIndex)
 func ArrayRules.AtMostOneOfEachTypeValidator
   requires true
 func ArrayValidationMode.HasMode
